@@ -1,5 +1,19 @@
 #!/usr/bin/env python3
 """Regenerates /verif/MANIFEST.json from the table below (kept in one place so it is always valid)."""
+def _category(pid, declared):
+    """the claimed category is 'proof' only if every unit of the property is unbounded: bounded stand-ins are never counted as proved"""
+    import importlib
+    try:
+        mod = importlib.import_module("specs." + pid)
+        units = mod.units("quick")
+        if declared == "proof" and any(u.bounded or getattr(u, "native_only", False) for u in units):
+            print("note: %s has bounded units: category 'other'" % pid)
+            return "other"
+    except Exception as e:
+        print("warning: cannot inspect units of %s: %s" % (pid, e))
+    return declared
+
+
 import json, os, sys
 HERE = os.path.dirname(os.path.dirname(os.path.abspath(__file__)))
 sys.path.insert(0, HERE)
@@ -32,7 +46,7 @@ def main():
             "evidence_file": "/verif/evidence/%s.json" % pid,
             "replay_cmd_template": "./check replay {path}",
             "engine": "vf-cbmc-contracts",
-            "level_claimed": {"category": M["category"], "text": M["text"], "design_ref": M.get("design_ref", "DESIGN.md 3")},
+            "level_claimed": {"category": _category(pid, M["category"]), "text": M["text"], "design_ref": M.get("design_ref", "DESIGN.md 3")},
             "level_note": M["note"],
             "technique": M.get("technique", "CBMC code contracts (goto-instrument --dfcc enforce/replace + loop contracts) on function bodies re-extracted from /repo each run"),
         })
